@@ -11,6 +11,10 @@ def run(ctx):
     cert = simple_cert("c1", ids=[{"dns": "a.example.org", "challenge": "http-01"}, {"dns": "b.example.org", "challenge": "dns-01"}])
     pos, _ = flows.baseline_positions("C03/base", [flowcheck.prepare(dict(certs=[cert]))["certs"][0]])
     specs = flows.single_fault_specs("C03", cert, pos, ctx.tier, ctx.seed, attempts=1, quick_stride=6, dense_kinds=("finalize", "order", "cert"))
+    # a failed attempt followed by a fault-free one IN THE SAME PROCESS: whatever the first left in memory (a key pair generated for a
+    # request that did not complete), the second must end with a matching pair
+    late = [p for p in pos if p[0] in ("finalize", "order", "cert")]
+    specs += flows.single_fault_specs("C03r", cert, late, ctx.tier, ctx.seed + 1, attempts=2, quick_stride=3)
     specs += flows.multi_fault_specs("C03", cert, pos, 400 if ctx.tier == "thorough" else 40, ctx.seed)
     results = flows.run_many(specs, workers=12)
     hung = [r["meta"] for r in results if any(x["hung"] for x in r["runs"])]
@@ -28,7 +32,7 @@ def run(ctx):
            "exhaustive": False,
            "rule": "every request position of a two-identifier issuance x the fault catalogue (24 ACME error types, unknown/absent type, "
                    "non-JSON bodies, dropped connections, missing headers/fields, invalid object statuses, non-PEM/truncated/empty certificate) "
-                   "x {no pair, matching pair on disk} x kp_reuse; quick = rotating 1/6 sample plus, for the steps from the order poll to the download (where the key pair is in play), every ACME error type in every pre/kp_reuse cell answered once; thorough = all, ACME errors answered once and repeatedly; plus random multi-fault runs over 3 attempts"}
+                   "x {no pair, matching pair on disk} x kp_reuse; quick = rotating 1/6 sample plus, for the steps from the order poll to the download (where the key pair is in play), every ACME error type in every pre/kp_reuse cell answered once; thorough = all, ACME errors answered once and repeatedly; plus, for faults from finalize on, a second fault-free attempt in the same process; plus random multi-fault runs over 3 attempts"}
     return {"coverage": cov, "assumptions": [
         "the pair is observed by the post-operation hook (file contents copied into the trace) and parsed by OpenSSL through vcrypto",
         "a pair that was already inconsistent before the attempt is not the attempt's fault (C03_PairOK is conditional on the start state)"]}
